@@ -192,3 +192,30 @@ def define_file(src):
 
 
 define_file('x_gcc_v3.so')
+
+
+# ---------------------------------------------------------------------------------------------------------------
+# derived__synth_*: images written by the own 'linker' (dst/core/elfbuild.py) with shapes no toolchain output in the corpus
+# has - here: names that are stored only as the tail of a longer name with multi-byte characters in front (byte offsets into
+# the string table differ from character offsets), the longer name coming first in the table. Seeds are searched, the bytes
+# are committed.
+def synth_tails():
+    import random
+    from dst.core import elfbuild
+
+    def good(names, hosted_before):
+        idx = {n: i for i, n in enumerate(names)}
+        return [(a, b) for a in names for b in names if a != b and a.endswith(b) and not a[:len(a) - len(b)].isascii() and idx[a] < idx[b]]
+    for label, builder, key in (('symtab', elfbuild.build, 'names'), ('dyn', elfbuild.build_dynamic, 'symbols')):
+        for seed in range(1, 5000):
+            data, desc = builder(random.Random(seed))
+            t = desc['truth']
+            names = t.get('names') or [x[0] for x in t.get('symbols', [])]
+            if len(names) < 30 and good(names, None):
+                out = 'derived__synth_%s_tails.elf' % label
+                open(os.path.join(C, out), 'wb').write(data)
+                print(out, len(data), 'seed', seed, good(names, None)[:2])
+                break
+
+
+synth_tails()
